@@ -278,7 +278,7 @@ func sym(n string) string {
 }
 
 func (s *Script) tagOf(t types.Type) int {
-	k := types.TypeString(t, nil)
+	k := strings.ReplaceAll(types.TypeString(t, nil), "interface{}", "any") // any is an alias of interface{}
 	if v, ok := s.typeTags[k]; ok {
 		return v
 	}
